@@ -66,15 +66,25 @@ Proof.
 Qed.
 
 (* ---------- renaming of an inlined graph only reserves fresh names ---------- *)
+Lemma reserve_free_inv fuel base : forall r sc r' sc', reserve_free fuel base r sc = inl (r', sc') -> ScopeInv sc -> ScopeInv sc'.
+Proof. induction fuel as [|f IH]; intros r sc r' sc' H Hs; cbn [reserve_free] in H.
+  - destruct (name_taken sc r) eqn:Ec; [discriminate H|]. revert H Hs Ec. clear. intros H [Hv [Hn [Hr1 Hr2]]] Ec. inversion H; subst.
+    unfold name_taken in Ec. apply orb_false_elim in Ec. destruct Ec as [E1 E2].
+    apply (mem_nIn String.eqb String.eqb_spec) in E1. apply (mem_nIn String.eqb String.eqb_spec) in E2.
+    split; [exact Hv|split; [exact Hn|split; cbn]].
+    + apply NoDup_app_snoc; assumption.
+    + intros x Hx. apply in_app_or in Hx. destruct Hx as [Hx|[Hx|[]]]; [exact (Hr2 x Hx)|subst x; exact E2].
+  - destruct (name_taken sc r) eqn:Ec.
+    + destruct (enum (vcnt sc) base) as [r2 vc2]. eapply IH; [exact H|]. exact Hs.
+    + revert H Hs Ec. clear. intros H [Hv [Hn [Hr1 Hr2]]] Ec. inversion H; subst.
+      unfold name_taken in Ec. apply orb_false_elim in Ec. destruct Ec as [E1 E2].
+      apply (mem_nIn String.eqb String.eqb_spec) in E1. apply (mem_nIn String.eqb String.eqb_spec) in E2.
+      split; [exact Hv|split; [exact Hn|split; cbn]].
+      * apply NoDup_app_snoc; assumption.
+      * intros x Hx. apply in_app_or in Hx. destruct Hx as [Hx|[Hx|[]]]; [exact (Hr2 x Hx)|subst x; exact E2]. Qed.
 Lemma reserve_prefixed_inv nm sc name r sc' : reserve_prefixed nm sc name = inl (r, sc') -> ScopeInv sc -> ScopeInv sc'.
 Proof. unfold reserve_prefixed. destruct (String.eqb name ""); [intros H; inversion H; subst; auto|].
-  destruct (maybe_enum (vcnt sc) (nm ++ "__" ++ name))%string as [r0 vc].
-  match goal with |- (if ?c then _ else _) = _ -> _ => destruct c eqn:Ec end; [intros H; discriminate H|].
-  intros H [Hv [Hn [Hr1 Hr2]]]. inversion H; subst. cbn in Ec. apply orb_false_elim in Ec. destruct Ec as [E1 E2].
-  apply (mem_nIn String.eqb String.eqb_spec) in E1. apply (mem_nIn String.eqb String.eqb_spec) in E2.
-  split; [exact Hv|split; [exact Hn|split; cbn]].
-  - apply NoDup_app_snoc; assumption.
-  - intros x Hx. apply in_app_or in Hx. destruct Hx as [Hx|[Hx|[]]]; [exact (Hr2 x Hx)|subst x; exact E2]. Qed.
+  destruct (maybe_enum (vcnt sc) (nm ++ "__" ++ name))%string as [r0 vc]. intros H Hs. eapply reserve_free_inv; [exact H|exact Hs]. Qed.
 
 Definition rsame (st st' : rstate) : Prop := ScopeInv (fst (fst st)) -> ScopeInv (fst (fst st')).
 Lemma rsame_refl st : rsame st st. Proof. intros H; exact H. Qed.
